@@ -150,6 +150,11 @@ func (s Set) Add(ip *IP) {
 
 func (s Set) PutValid(ip ...netip.Addr) {
 	for _, v := range ip {
+		if old, ok := s[v]; ok && old.InUse() {
+			// the address was removed remotely and handed out again while a pod still holds it: the pod keeps it
+			old.status = ipStatusValid
+			continue
+		}
 		s[v] = &IP{ip: v, status: ipStatusValid}
 	}
 }
